@@ -4,6 +4,17 @@ import json, os, sys
 HERE = os.path.dirname(os.path.abspath(__file__))
 
 CHECKS = {
+ "C07": dict(
+    technique="effect/purity analysis over MIR: statics census, who-may-read a field, iterator-sink classification for hash-ordered containers, inter-procedural pointer-cast value flow",
+    design_ref="DESIGN.md §4 C07",
+    text="Decides that write-fonts/klippa compilation cannot observe anything but its input: the only interior-mutable static is "
+         "the 64-bit object counter; ObjectId's integer is produced only by fetch_add in ObjectId::next and read only by derived "
+         "Ord/Eq/Hash (a finite set of orderings identical in every run and under every interleaving); every iteration over a "
+         "RandomState-hashed container or a hashed container keyed by ObjectId ends in an order-insensitive consumer (22 sites "
+         "classified; 11 by confirmed reason); no time/env/random/thread-id calls; every pointer-to-integer cast flows only into "
+         "address differences, alignment masks or unread fields. Holds for every hash seed, thread interleaving and prior history.",
+    note="Trusted: dependencies' determinism (std, indexmap, kurbo, log); sort-key totality at the two sorted-vec sites; confirmed reasons were read by hand and are keyed per function.",
+ ),
  "C13": dict(
     technique="path-sensitive typestate over MIR (push/pop stack automaton), dominator guards, recursion-idiom recogniser",
     design_ref="DESIGN.md §4 C13",
